@@ -535,8 +535,12 @@ def run_ice_once(case, digit):
 
         def __init__(self):
             self.left = b""         # physical bytes of the current meta interval not yet handed out
+            self.calls = 0
 
         def read(self, n):
+            self.calls += 1
+            if self.calls > 200000:
+                raise ImplError("more than 200000 raw.read() calls in one history", None)
             if not meta:
                 finalize()
                 if not state["slice"]:
@@ -1351,7 +1355,9 @@ def run(ctx):
                 "StreamReaderWrapper}; generated for %d size/headroom pairs up to (65536,32768) with short source "
                 "reads, also through StreamableIOBaseWrapper and StreamableSourceWrapper; PatchedIceCastClient: generated "
                 "interleavings of download iterations and read/seek/protect for 7 (size, headroom, BLOCK_SIZE) triples up "
-                "to production, with and without icy-metaint; non-trivial = at least one byte was returned; "
+                "to production, with and without icy-metaint; the real _download_stream on finite bodies (<= 200 audio bytes) "
+                "served with scripted short reads (1 byte, n-1, exact), with/without icy-metaint, empty and 16-byte metadata "
+                "blocks, bodies ending on and off a frame boundary; non-trivial = at least one byte was returned; "
                 "distinct by (kind, sizes, executed history)"
                 % (maxlen, len(SMALL) + len(MEDIUM) + len(LARGE)))
     coq_compare(ctx, coq_items)
@@ -1364,7 +1370,10 @@ def run(ctx):
         "asyncio.StreamReader served by an event loop in another thread",
         "PatchedIceCastClient driven without its thread: requests.get and time.sleep/monotonic inside audio_source are "
         "replaced, the download loop and the reader are interleaved deterministically at the loop's two waiting points; "
-        "ICY metadata blocks are empty (length byte 0)",
+        "ICY metadata blocks are empty (length byte 0) in the production-size interleavings; the detailed producer "
+        "runs name every body byte by its wire value (audio 16+offset, length byte < 16, metadata 240+i) so that a "
+        "length or metadata byte reaching the reader is recognised; the fake raw.read raises after 40 consecutive "
+        "empty reads (the spinning _readall) and after 20000 calls; every history runs under a 60 s alarm",
         "returned bytes are identified by running each history on up to three contents (base-256 digits of the "
         "offset); relies on the code not branching on byte values, which the runs cross-check",
     ]
